@@ -54,7 +54,37 @@ let parse_op t : op =
   | "build" -> OpBuild
   | x -> failwith ("syntax: op " ^ x)
 
-type scenario = { cfg : config; utxos : (n * value) list; ops : op list }
+let triple t = let p = bytes t in let n = bytes t in let z = z_of_string (next t) in ((p, n), z)
+
+(* phase 2 operations; an address id is carried as the one-byte string [id] where the model wants bytes *)
+let parse_op2 t : op2 =
+  match peek t with
+  | Some "col" -> ignore (next t);
+    let k = (match count t with Some k -> k | None -> 0) in OpSetCollateral (rep k (fun () -> num t))
+  | Some "pct" -> ignore (next t);
+    let _st = next t in let a = num t in let e = num t in let pct = num t in
+    let k = (match count t with Some k -> k | None -> 0) in
+    let ids = rep k (fun () -> num t) in
+    OpPercent (ids, a, e, [a], pct)
+  | Some "mintout" -> ignore (next t);
+    let ((p, n), z) = triple t in let a = num t in let e = num t in let c = num t in OpMintOutput (p, n, z, a, e, c)
+  | Some "mintoutmin" -> ignore (next t);
+    let ((p, n), z) = triple t in let a = num t in let e = num t in OpMintOutputMin (p, n, z, a, e)
+  | Some "addmint" -> ignore (next t);
+    let ((p, n), z) = triple t in OpAddMintAsset (p, n, z)
+  | Some "dmint" -> ignore (next t);
+    let ok = (next t = "1") in
+    let k = (match count t with Some k -> k | None -> 0) in
+    OpSetMintDeprecated (ok, rep k (fun () -> triple t))
+  | Some "dcerts" -> ignore (next t);
+    let k = (match count t with Some k -> k | None -> 0) in
+    OpSetCertsDeprecated (rep k (fun () -> let c = cert t in let sc = (next t = "1") in (c, sc)))
+  | Some "dwd" -> ignore (next t);
+    let k = (match count t with Some k -> k | None -> 0) in
+    OpSetWithdrawalsDeprecated (rep k (fun () -> let a = num t in let c = num t in let sc = (next t = "1") in ((a, c), sc)))
+  | _ -> Old (parse_op t)
+
+type scenario = { cfg : config; utxos : (n * value) list; ops : op2 list }
 
 let parse_case (l : string list) : scenario =
   let t = mk l in
@@ -68,7 +98,7 @@ let parse_case (l : string list) : scenario =
   let utxos = rep n (fun () -> let id = num t in let v = value t in (id, v)) in
   expect t "OPS";
   let n = (match count t with Some n -> n | None -> 0) in
-  let ops = rep n (fun () -> parse_op t) in
+  let ops = rep n (fun () -> parse_op2 t) in
   { cfg = { c_pool_deposit = pool; c_key_deposit = key; c_prefer_pure_change = pure; c_do_not_burn_extra_change = noburn };
     utxos = utxos; ops = ops }
 
@@ -144,6 +174,11 @@ let parse_impl (l : string list) : impl option =
     let _ = rep no (fun () -> output t) in
     let ni = (match count t with Some n -> n | None -> 0) in
     let _ = rep ni (fun () -> next t) in
+    expect t "COL";
+    let nc = (match count t with Some n -> n | None -> 0) in
+    let _ = rep nc (fun () -> next t) in
+    (match peek t with Some "~" -> ignore (next t) | _ -> (ignore (next t); ignore (value t)));
+    let _total = next t in
     expect t "TX";
     let tx_start = t.pos in
     let tx =
@@ -199,7 +234,7 @@ let () = run_driver (fun toks impl_toks ->
       | o :: r, t :: r' -> (o, t) :: zip r r'
       | o :: r, [] -> (o, { empty_tape with t_bad = true }) :: zip r []
       | [], _ -> [] in
-    let ((rs, st), tx) = run_ops sc.utxos (zip sc.ops im.i_ora) (new_state sc.cfg) in
+    let (((rs, st), col), tx) = run_ops2 sc.utxos (zip sc.ops im.i_ora) (new_state sc.cfg) col_new in
     let b = Buffer.create 512 in
     Buffer.add_string b (Printf.sprintf "ok R %d" (List.length rs));
     List.iter (fun r -> Buffer.add_string b (" " ^ show_res r)) rs;
@@ -208,6 +243,15 @@ let () = run_driver (fun toks impl_toks ->
     List.iter (fun o -> Buffer.add_string b (" " ^ show_output o)) st.s_outputs;
     Buffer.add_string b (Printf.sprintf " %d" (List.length st.s_inputs));
     List.iter (fun (id, _) -> Buffer.add_string b (" " ^ string_of_n id)) st.s_inputs;
+    (* collateral inputs (ids decoded from the 8 big-endian bytes of the outpoint), return, total *)
+    let id_of_txin ((bs, _) : n list * n) = List.fold_left (fun acc x -> BZ.add (BZ.mul acc (BZ.of_int 256)) (bz_of_n x)) BZ.zero bs in
+    Buffer.add_string b (Printf.sprintf " COL %d" (List.length col.cs_inputs));
+    List.iter (fun (k, _) -> Buffer.add_string b (" " ^ BZ.to_string (id_of_txin k))) col.cs_inputs;
+    (match col.cs_return with
+     | None -> Buffer.add_string b " ~"
+     | Some o -> Buffer.add_string b (Printf.sprintf " %s %s"
+                   (match col_return_addr o with [a] -> string_of_n a | _ -> "?") (show_value (col_return_amount o))));
+    Buffer.add_string b (" " ^ (match col.cs_total with Some x -> string_of_n x | None -> "~"));
     Buffer.add_string b " TX ";
     Buffer.add_string b (match tx with Some body -> show_body body | None -> "~");
     Buffer.add_string b (" " ^ im.i_ora_text);
